@@ -105,10 +105,13 @@ def plainInls : List Inl → Bytes
   | k :: rest => plainInl k ++ [0x20] ++ plainInls rest
 end
 
+/-- A line feed inside a title or raw tag stands for the document's line ending. -/
+def withEol (eol : Bytes) (b : Bytes) : Bytes := b.flatMap fun c => if c == 0x0A then eol else [c]
+
 def linkAttrs (e : Env) (attr : String) (dest : Bytes) (title : Option Bytes) : Bytes :=
   s (" " ++ attr ++ "=\"") ++ escAttr (uriEncode dest) ++ s "\"" ++
   (match title with
-   | some t => s " title=\"" ++ escAttr t ++ s "\""
+   | some t => s " title=\"" ++ escAttr (withEol e.eol t) ++ s "\""
    | none => [])
 
 mutual
@@ -124,7 +127,7 @@ def denoteInl (e : Env) : Inl → Bytes
      | some (d, t) => s "<a" ++ linkAttrs e "href" d t ++ s ">" ++ denoteInls e ks ++ s "</a>"
      | none => s "[undefined]")
   | .autolink u => s "<a href=\"" ++ escAttr (uriEncode u) ++ s "\">" ++ escAttr u ++ s "</a>"
-  | .rawtag b => b
+  | .rawtag b => withEol e.eol b
   | .entity _ d => escText d
   | .hardbreak => []
   | .softbreak => []
@@ -190,14 +193,17 @@ def serWord (c : Choices) (b : Bytes) : Bytes × Choices :=
 def escIn (special : Bytes) (b : Bytes) : Bytes :=
   b.flatMap fun ch => if special.contains ch then [0x5C, ch] else [ch]
 
-def serTitle (c : Choices) (t : Option Bytes) : Bytes × Choices :=
+/-- A line feed inside a title / raw tag continues on the next line of the container (`pre` = its prefix). -/
+def contLines (pre eol : Bytes) (b : Bytes) : Bytes := b.flatMap fun c => if c == 0x0A then eol ++ pre else [c]
+
+def serTitle (pre eol : Bytes) (c : Choices) (t : Option Bytes) : Bytes × Choices :=
   match t with
   | none => ([], c)
   | some t =>
     let (k, c') := pick c 3
-    if k == 0 then (s " \"" ++ escIn (s "\"\\&") t ++ s "\"", c')
-    else if k == 1 then (s " '" ++ escIn (s "'\\&") t ++ s "'", c')
-    else (s " (" ++ escIn (s "()\\&") t ++ s ")", c')
+    if k == 0 then (s " \"" ++ contLines pre eol (escIn (s "\"\\&") t) ++ s "\"", c')
+    else if k == 1 then (s " '" ++ contLines pre eol (escIn (s "'\\&") t) ++ s "'", c')
+    else (s " (" ++ contLines pre eol (escIn (s "()\\&") t) ++ s ")", c')
 
 def serDest (c : Choices) (d : Bytes) : Bytes × Choices :=
   let needsAngle := d.isEmpty || d.contains 0x20
@@ -229,18 +235,18 @@ def serInl (pre : Bytes) (eol : Bytes) (c : Choices) : Inl → Bytes × Choices
   | .link ks d t =>
     let (body, c1) := serInls pre eol c ks
     let (ds, c2) := serDest c1 d
-    let (ts, c3) := serTitle c2 t
+    let (ts, c3) := serTitle pre eol c2 t
     (s "[" ++ body ++ s "](" ++ ds ++ ts ++ s ")", c3)
   | .image ks d t =>
     let (body, c1) := serInls pre eol c ks
     let (ds, c2) := serDest c1 d
-    let (ts, c3) := serTitle c2 t
+    let (ts, c3) := serTitle pre eol c2 t
     (s "![" ++ body ++ s "](" ++ ds ++ ts ++ s ")", c3)
   | .reflink ks l =>
     let (body, c1) := serInls pre eol c ks
     (s "[" ++ body ++ s "][" ++ l ++ s "]", c1)
   | .autolink u => (s "<" ++ u ++ s ">", c)
-  | .rawtag b => (b, c)
+  | .rawtag b => (contLines pre eol b, c)
   | .entity n _ => (s "&" ++ n ++ s ";", c)
   | .hardbreak => ([], c)
   | .softbreak => ([], c)
@@ -325,7 +331,7 @@ def serBlk (first pre eol : Bytes) (c : Choices) : Blk → Bytes × Choices
     | l0 :: rest => (first ++ l0 ++ eol ++ rest.flatMap (fun l => pre ++ l ++ eol), c)
   | .refdef label dest title =>
     let (ds, c1) := serDest c dest
-    let (ts, c2) := serTitle c1 title
+    let (ts, c2) := serTitle pre eol c1 title
     (first ++ s "[" ++ label ++ s "]: " ++ ds ++ ts ++ eol, c2)
 /-- Blocks of one container, separated by 1–3 blank lines. `blankPre` is the prefix of a blank line. -/
 def serBlks (first pre blankPre eol : Bytes) (c : Choices) : List Blk → Bytes × Choices
